@@ -281,7 +281,14 @@ fn main() {
     if let Some(c) = run.replay_case() {
         let (g, pi, pd) = (c["use_graphemes"].as_bool().unwrap(), c["insert_p"].as_f64().unwrap(), c["delete_p"].as_f64().unwrap());
         let f = corruption(pi, pd, g);
-        check(&mut run, &sub, &f, c["text"].as_str().unwrap(), g, pi, pd, c["seed"].as_u64().unwrap(), None);
+        // a violated determinism clause shows only with some probability per pair of calls: repeat
+        // the case until a violation shows (64 times at most)
+        for _ in 0..64 {
+            check(&mut run, &sub, &f, c["text"].as_str().unwrap(), g, pi, pd, c["seed"].as_u64().unwrap(), None);
+            if run.num_violations() > 0 {
+                break;
+            }
+        }
         run.finish();
     }
     let max_w = run.pick(4, 6);
